@@ -7,6 +7,7 @@ This is the default dispatcher used by circuits.web
 
 from circuits import BaseComponent, Event, handler
 from circuits.web.controllers import BaseController
+from circuits.web.errors import notfound
 from circuits.web.events import response
 from circuits.web.processors import process
 from circuits.web.utils import parse_qs
@@ -121,7 +122,12 @@ class Dispatcher(BaseComponent):
             res.body = value.value
             self.fire(response(res))
         elif value.promise:
-            value.event.notify = True
+            if value.getValue(recursive=False) is None:
+                # the generator handler finished without yielding anything:
+                # same as a handler returning None
+                self.fire(notfound(_req, res))
+            else:
+                value.event.notify = True
         else:
             # Errors are handled by the ``HTTP`` Protocol Component
             return
